@@ -617,6 +617,25 @@ func (i *Interpreter) ExecuteRoute(route *Route, request *Request) (*Response, e
 					inputValue = inputWithDefaults
 				}
 			}
+		} else {
+			// A declared input type that is not a bare type name (Item?,
+			// Item | Other, [Item], List[Item]) is a contract as well: the
+			// general checker applies it. An absent body satisfies only an
+			// optional type; otherwise it is checked as an empty object, as
+			// for a named type.
+			checked := inputValue
+			if _, optional := route.InputType.(OptionalType); checked == nil && !optional {
+				checked = map[string]interface{}{}
+			}
+			if err := i.typeChecker.CheckType(checked, route.InputType); err != nil {
+				err = fmt.Errorf("input validation failed: %v", err)
+				return &Response{
+					StatusCode: 400,
+					Body: map[string]interface{}{
+						"error": err.Error(),
+					},
+				}, err
+			}
 		}
 	}
 
